@@ -13,7 +13,7 @@ from props.C07 import gen_sel, _py_sel
 
 REQUIRED_THEOREMS = ['Usid.C20.read_frame', 'Usid.C20.history_independent_reads', 'Usid.C20.write_refused',
                      'Usid.C20.ro_never_changes', 'Usid.C20.rw_write_changes', 'Usid.C20.table_functional']
-RULE = ('generator files (a Main dataset with 1-3 dimensions per side, its ancillaries, 0-2 groups of earlier results '
+RULE = ('[also: a TARGET group in another file - results group, process, empty dataset written to it and look-ups in it - under every combination of open modes of the source and target files] generator files (a Main dataset with 1-3 dimensions per side, its ancillaries, 0-2 groups of earlier results '
         'holding their own Main dataset, a decoy group, plain datasets) opened "r" and "r+"; random sequences (<= 8 '
         'quick, <= 20 thorough) of the 24 read-side operations with generated arguments; after EVERY operation the '
         'SHA-256 of the file on disk (read-only) and a canonical dump of every dataset and attribute through the open '
@@ -34,6 +34,8 @@ WRITE_OPS = ['create_indexed_group', 'create_results_group', 'write_ind_val_dset
              'create_empty_dataset', 'slice_to_dataset', 'reduce_to_file', 'link_as_main', 'write_reduced_anc_dsets',
              'process_init', 'copy_main_attributes', 'write_book_keeping_attrs', 'write_sidpy_dataset']
 PARMS = {'p': 1, 'q': 'text'}
+TARGET_OPS = ['create_results_group', 'process', 'create_empty_dataset', 'find_results_groups', 'check_for_old']
+TARGET_WRITES = ['create_results_group', 'process', 'create_empty_dataset']
 
 
 # ---------------------------------------------------------------- generation
@@ -140,6 +142,14 @@ def generate(seed, tier):
                 j += 1
                 cases.append({'kind': 'seq', 'ds': _gen_ds(rng), 'nres': rng.choice([0, 1]), 'mode': mode, 'flag0': False,
                               'ops': [{'name': 'wrap'}, {'name': w}]})
+    # a TARGET distinct from the source: results written to / looked up in a group of another file, in every
+    # combination of open modes of the two files
+    for rep in range({'quick': 1, 'thorough': 4, 'search': 2}[tier]):
+        for t_op in TARGET_OPS:
+            for sa, ta in (('r', 'r+'), ('r+', 'r'), ('r', 'r'), ('r+', 'r+')):
+                rng = derived_rng(seed, 'C20t', len(cases))
+                cases.append({'kind': 'target', 'ds': _gen_ds(rng), 'nres': 1, 'mode': sa, 'target_mode': ta, 'op': t_op,
+                              'flag0': False, 'ops': [], 'root': rng.random() < 0.5})
     return cases
 
 
@@ -421,7 +431,84 @@ def _run_op(op, cx, inp):
         return {'err': err_of(e), 'cls': type(e).__name__}
 
 
+def _run_target(inp, work):
+    from pyUSID.io import hdf_utils as hu
+    pa, pb = os.path.join(work, 'a.h5'), os.path.join(work, 'b.h5')
+    _make_file(inp, pa)
+    with h5py.File(pb, 'w') as fb:
+        tg = fb.create_group('T')
+        old = tg.create_group('main-Fit_000')
+        old.attrs['tool'] = 'Fit'
+        for key, v in PARMS.items():
+            old.attrs[key] = v
+        fb.attrs['marker'] = 1
+    sha = {'a': _sha(pa), 'b': _sha(pb)}
+    with h5py.File(pa, 'r') as f:
+        da0 = _dump(f)
+    with h5py.File(pb, 'r') as f:
+        db0 = _dump(f)
+    fa, fb = h5py.File(pa, inp['mode']), h5py.File(pb, inp['target_mode'])
+    out = {}
+    try:
+        main = fa['G/main']
+        tgt = fb if inp.get('root') else fb['T']
+        op = inp['op']
+
+        def do():
+            if op == 'create_results_group':
+                return _dig(hu.create_results_group(main, 'Fit', h5_parent_group=tgt))
+            if op == 'process':
+                from procs import make_proc_class
+                p = make_proc_class()(main, parms={'zz': 1}, h5_target_group=tgt)
+                p.compute()
+                return 'computed'
+            if op == 'create_empty_dataset':
+                return _dig(hu.create_empty_dataset(main, np.float32, 'Empty', h5_group=tgt))
+            if op == 'find_results_groups':
+                return _dig(sorted(x.name for x in hu.find_results_groups(main, 'Fit', h5_parent_group=tgt)))
+            return _dig(sorted(x.name for x in hu.check_for_old(main, 'Fit', new_parms=dict(PARMS), h5_parent_goup=tgt)))
+        try:
+            r, _ = _capture(do)
+            out['res'] = {'ok': r}
+        except Exception as e:    # noqa
+            out['res'] = {'err': err_of(e), 'cls': type(e).__name__}
+    finally:
+        fa.close()
+        fb.close()
+    out['sha_same'] = {'a': _sha(pa) == sha['a'], 'b': _sha(pb) == sha['b']}
+    with h5py.File(pa, 'r') as f:
+        out['dump_a_same'] = _dump(f) == da0
+    with h5py.File(pb, 'r') as f:
+        out['dump_b_same'] = _dump(f) == db0
+    return out
+
+
+def _oracle_target(inp, obs):
+    fails = []
+    what = '%s with the source opened %r and the target file opened %r' % (inp['op'], inp['mode'], inp['target_mode'])
+    is_write = inp['op'] in TARGET_WRITES
+    if inp['mode'] == 'r' and not obs['sha_same']['a']:
+        fails.append('ro-changed: the read-only SOURCE file changed after %s' % what)
+    if inp['target_mode'] == 'r' and not obs['sha_same']['b']:
+        fails.append('ro-changed: the read-only TARGET file changed after %s' % what)
+    if not obs['dump_a_same']:
+        fails.append('changed: datasets / attributes of the source file changed after %s' % what)
+    if is_write:
+        if inp['target_mode'] == 'r' and 'err' not in obs['res']:
+            fails.append('write-accepted: %s did not raise' % what)
+        if inp['target_mode'] == 'r+' and 'err' in obs['res']:
+            fails.append('write-raises: %s raised %s although the target is writable' % (what, obs['res']['cls']))
+    else:
+        if 'err' in obs['res']:
+            fails.append('read-raises: %s raised %s' % (what, obs['res']['cls']))
+        if not obs['dump_b_same']:
+            fails.append('changed: the target file changed after the look-up %s' % what)
+    return fails
+
+
 def run_impl(inp, work):
+    if inp.get('kind') == 'target':
+        return _run_target(inp, work)
     path = os.path.join(work, 'a.h5')
     _make_file(inp, path)
     sha0 = _sha(path)
@@ -465,6 +552,8 @@ def run_impl(inp, work):
 
 
 def oracle(inp, obs):
+    if inp.get('kind') == 'target':
+        return _oracle_target(inp, obs)
     fails = []
     ro = inp['mode'] == 'r'
     for i, (op, rec) in enumerate(zip(inp['ops'], obs['ops'])):
@@ -494,6 +583,8 @@ def oracle(inp, obs):
 
 
 def nontrivial(inp, obs):
+    if inp.get('kind') == 'target':
+        return True
     names = [o['name'] for o in inp['ops']]
     return (names.count('toggle_sorting') >= 1 and len(names) >= 4) or any(n in WRITE_OPS for n in names)
 
@@ -508,12 +599,16 @@ def _trace(inp, rec):
 
 
 def model_requests_obs(inp, obs):
+    if inp.get('kind') == 'target':
+        return []
     calls = [{'name': rec['name'], 'trace': _trace(inp, rec)} for rec in obs['ops']]
     return [{'op': 'ro.run', 'mode': inp['mode'], 'flag': inp['flag0'], 'calls': calls}]
 
 
 def model_compare(inp, obs, resp):
     notes = []
+    if inp.get('kind') == 'target':
+        return notes
     for i, (rec, m, fl) in enumerate(zip(obs['ops'], resp[0], obs['flags'])):
         tag = '%s (operation %d, mode %s)' % (rec['name'], i, inp['mode'])
         if not m['conforms']:
@@ -532,7 +627,10 @@ def model_compare(inp, obs, resp):
 def distribution(cases, obs):
     d = {'r': 0, 'r+': 0, 'ops': 0, 'toggles': 0, 'write_calls': 0, 'read_errors': 0}
     per = {}
+    d['target_cases'] = sum(1 for c in cases if c.get('kind') == 'target')
     for c, o in zip(cases, obs):
+        if c.get('kind') == 'target':
+            continue
         d[c['mode']] += 1
         for op, rec in zip(c['ops'], o['ops']):
             d['ops'] += 1
